@@ -1,6 +1,7 @@
 package rules
 
 import (
+	"fmt"
 	"go/token"
 	"go/types"
 	"strings"
@@ -176,32 +177,56 @@ func c09(c *engine.Ctx) {
 		ok := g != nil && engine.CalleeID(g.Common()) == "(*math/big.Int).Exp" && op(g, 2) == a && engine.Describe(op(g, 3)) == "p:dhPrime" && engine.Describe(op(g, 1)) == "math/big.NewInt(p:g)"
 		c.Check(ok, "C09.R1", "TestServerRNG.GA/returns-a-and-g^a", r.Pos(), "GA must return (a, Exp(g, a, dhPrime)) for one and the same a")
 		// accepted only inside both client ranges, with the client's bounds
+		// the client's interval is the one CheckDHParams accepts g_a in (class
+		// evaluation, bigrange.go); the server's guards are evaluated to a·p + k
+		// and must lie inside it
 		var bounds []string
-		for _, call := range engine.CallsTo(ga, false, "crypto.InRange") {
-			cc, _ := call.(*ssa.Call)
-			if cc == nil || engine.CallOf(cc.Common().Args[0]) != g {
-				continue
-			}
-			if engine.GuardedBy(r, func(k engine.Cmp) bool {
-				kb, isB := engine.ConstBool(k.Y)
-				return engine.CallOf(k.X) == cc && isB && ((kb && k.Op == token.EQL) || (!kb && k.Op == token.NEQ))
-			}) {
-				bounds = append(bounds, engine.Describe(cc.Common().Args[1])+" .. "+engine.Describe(cc.Common().Args[2]))
+		var prime ssa.Value
+		for _, p := range ga.Params {
+			if engine.Describe(p) == "p:dhPrime" {
+				prime = p
 			}
 		}
-		want := c09ClientRanges(c)
-		n1++
-		okR := len(want) > 0
-		for _, w := range want {
-			found := false
-			for _, b := range bounds {
-				if b == w {
-					found = true
+		want := "unknown"
+		okLo, okHi := false, false
+		if d := dhParamsEval(c); d.err == nil && prime != nil {
+			lo, hi, any := d.acceptedInterval(1)
+			want = fmt.Sprintf("(%v .. %v)", lo, hi)
+			okLo, okHi = any && lo == nil, any && hi == nil
+			for _, call := range engine.CallsTo(ga, false, "crypto.InRange") {
+				cc, _ := call.(*ssa.Call)
+				if cc == nil || engine.CallOf(cc.Common().Args[0]) != g {
+					continue
+				}
+				if !engine.GuardedBy(r, func(k engine.Cmp) bool {
+					kb, isB := engine.ConstBool(k.Y)
+					return engine.CallOf(k.X) == cc && isB && ((kb && k.Op == token.EQL) || (!kb && k.Op == token.NEQ))
+				}) {
+					continue
+				}
+				sl, e1 := bigEval(cc.Common().Args[1], prime)
+				sh, e2 := bigEval(cc.Common().Args[2], prime)
+				if e1 != nil || e2 != nil {
+					bounds = append(bounds, "unevaluated")
+					continue
+				}
+				bounds = append(bounds, fmt.Sprintf("(%v .. %v)", sl, sh))
+				if lo != nil {
+					if cmp, ok := cmpSym(sl, *lo); ok && cmp >= 0 {
+						okLo = true
+					}
+				}
+				if hi != nil {
+					if cmp, ok := cmpSym(sh, *hi); ok && cmp <= 0 {
+						okHi = true
+					}
 				}
 			}
-			okR = okR && found
+		} else if d.err != nil {
+			want = "unknown: " + d.err.Error()
 		}
-		c.Check(okR, "C09.R1", "TestServerRNG.GA/accepts-only-what-the-client-accepts", r.Pos(), "an honest server must not offer a g_a the client refuses: the draw must be accepted only inside %v (guards found: %v)", want, bounds)
+		n1++
+		c.Check(okLo && okHi, "C09.R1", "TestServerRNG.GA/accepts-only-what-the-client-accepts", r.Pos(), "an honest server must not offer a g_a the client refuses: the draw must be accepted only inside the client's interval %s (guards found: %v)", want, bounds)
 	}
 	c.Floor("C09.R1", 7, n1)
 
@@ -478,38 +503,6 @@ func c09FillGuarded(fn *ssa.Function, fill ssa.CallInstruction) bool {
 		}
 	}
 	return len(rs) > 0
-}
-
-// c09ClientRanges: the (min .. max) bounds CheckDHParams applies to g_a, as
-// descriptions over its parameter dhPrime (TestServerRNG.GA names its
-// parameter the same, so the descriptions are comparable).
-func c09ClientRanges(c *engine.Ctx) []string {
-	fn := c.Func("crypto", "CheckDHParams")
-	if fn == nil {
-		return nil
-	}
-	var out []string
-	for _, call := range engine.CallsTo(fn, false, "crypto.InRange") {
-		a := call.Common().Args
-		if engine.Describe(a[0]) != "p:gA" {
-			continue
-		}
-		cc, _ := call.(*ssa.Call)
-		// the range must be enforced: a false result rejects
-		rej := false
-		for _, r := range engine.Returns(fn) {
-			if engine.ReturnKind(r, 0) == "nonnil" && engine.GuardedBy(r, func(k engine.Cmp) bool {
-				kb, isB := engine.ConstBool(k.Y)
-				return engine.CallOf(k.X) == cc && isB && ((!kb && k.Op == token.EQL) || (kb && k.Op == token.NEQ))
-			}) {
-				rej = true
-			}
-		}
-		if rej {
-			out = append(out, engine.Describe(a[1])+" .. "+engine.Describe(a[2]))
-		}
-	}
-	return out
 }
 
 // c09Success: returns whose error result is the constant nil (a call result
